@@ -2,7 +2,7 @@
    tokenized corpus. *)
 From WS Require Import Base.Py Base.Str Base.Counter Base.CounterProofs Separator.Model
   Dibs.Model Dibs.Proofs Dibs.ProofsProb.
-From Coq Require Import QArith.
+From Coq Require Import QArith Qminmax.
 Local Open Scope Z_scope.
 
 (* ================================================================== *)
@@ -17,10 +17,6 @@ Proof.
   unfold last_r. destruct (rev l) as [|y r] eqn:E; intros H; [discriminate|]. injection H as ->.
   exists (rev r). apply (f_equal (@rev A)) in E. rewrite rev_involutive in E. exact E.
 Qed.
-
-Lemma hd_r_nonnil {A} (l : list A) : l <> [] -> hd_r l = Ok (hd_r_default l)
-with hd_r_default {A} (l : list A) : A.
-Abort.
 
 Lemma hd_r_some {A} (l : list A) (d : A) : l <> [] -> hd_r l = Ok (hd d l).
 Proof. destruct l; [congruence|reflexivity]. Qed.
@@ -70,7 +66,9 @@ Proof.
   induction phones as [|p1 r IH]; intros F; [reflexivity|].
   destruct r as [|p2 r']; [reflexivity|].
   inversion F as [|? ? H1 F']; subst. inversion F' as [|? ? H2 F'']; subst.
-  cbn [spans_of]. rewrite (last_r_some p1 [] H1), (hd_r_some p2 [] H2). cbn [bind].
+  change (spans_of (p1 :: p2 :: r')) with
+    (do a <- last_r p1; do b <- hd_r p2; do rest <- spans_of (p2 :: r'); Ok ((a, b) :: rest)).
+  rewrite (last_r_some p1 [] H1), (hd_r_some p2 [] H2). cbn [bind].
   rewrite (IH F'). reflexivity.
 Qed.
 
@@ -357,7 +355,11 @@ Qed.
 
 Lemma sm_inv_0 (sep : separator) (lv : level) : sm_inv (summary0 sep lv).
 Proof.
-  constructor; cbn; try constructor; try lia. intros k. reflexivity.
+  constructor; unfold summary0;
+    cbn [sm_sep sm_level nlines nwords nphones lexicon phrase_initial phrase_final
+         internal spanning diphones];
+    try (apply Forall_nil); try lia.
+  intros k. reflexivity.
 Qed.
 
 Lemma sm_inv_train (text : list str) (s s' : summary) :
@@ -419,4 +421,220 @@ Proof.
       destruct (nphones s - nlines s =? 0); [discriminate|]. injection Hp as <-.
       apply Qdiv_unit; [apply zq_nonneg; lia|apply zq_le; lia]. }
   destruct k; cbn [probs_hyp]; auto.
+Qed.
+
+(* ================================================================== *)
+(* corpus level: the statistics are direct counts over the tokenized,  *)
+(* non-blank utterances                                                *)
+(* ================================================================== *)
+
+(* (words, phones) of one utterance *)
+Definition parsed (sep : separator) (lv : level) (utt : str) (wp : list str * list (list str)) : Prop :=
+  tokenize sep utt Word true = Ok (fst wp) /\
+  mapM (fun w => tokenize sep w lv false) (fst wp) = Ok (snd wp).
+
+Definition blank_b (utt : str) : bool := match strip utt with [] => true | _ => false end.
+Definition kept (text : list str) : list str := filter (fun utt => negb (blank_b utt)) text.
+
+Definition all_words (wps : list (list str * list (list str))) : list str := flat_map fst wps.
+Definition all_phones (wps : list (list str * list (list str))) : list (list str) := flat_map snd wps.
+
+Record counts_rel (s s' : summary) (wps : list (list str * list (list str))) : Prop := {
+  cr_lines : nlines s' = nlines s + Z.of_nat (length wps);
+  cr_words : nwords s' = nwords s + Z.of_nat (length (all_words wps));
+  cr_phones : nphones s' = nphones s + Z.of_nat (length (concat (all_phones wps)));
+  cr_int : forall d, cget pair_eqb (internal s') d
+                     = cget pair_eqb (internal s) d + occ pair_eqb d (flat_map zip_adj (all_phones wps));
+  cr_spn : forall d, cget pair_eqb (spanning s') d
+                     = cget pair_eqb (spanning s) d + occ pair_eqb d (flat_map (fun wp => spans (snd wp)) wps);
+  cr_lex : forall w, cget str_eqb (lexicon s') w
+                     = cget str_eqb (lexicon s) w + occ str_eqb w (all_words wps);
+  cr_pi : forall u, cget str_eqb (phrase_initial s') u
+                    = cget str_eqb (phrase_initial s) u + occ str_eqb u (map (fun wp => first_of (snd wp)) wps);
+  cr_pf : forall u, cget str_eqb (phrase_final s') u
+                    = cget str_eqb (phrase_final s) u + occ str_eqb u (map (fun wp => last_of (snd wp)) wps) }.
+
+Lemma strip_nil : strip [] = [].
+Proof. reflexivity. Qed.
+
+Theorem train_loop_counts : forall (text : list str) (s s' : summary),
+  train_loop s text = Ok s' ->
+  exists wps : list (list str * list (list str)),
+    Forall2 (parsed (sm_sep s) (sm_level s)) (kept text) wps /\
+    Forall (fun wp => snd wp <> [] /\ Forall nonnil (snd wp) /\ length (snd wp) = length (fst wp)) wps /\
+    counts_rel s s' wps.
+Proof.
+  induction text as [|utt r IH]; intros s s' H.
+  - injection H as <-. exists []. split; [constructor|]. split; [constructor|].
+    constructor; intros; cbn; lia.
+  - cbn [train_loop] in H. unfold kept. cbn [filter]. unfold blank_b at 1.
+    destruct (strip utt) as [|c u] eqn:Es.
+    + cbn [negb]. apply (IH s s' H).
+    + cbn [negb].
+      destruct (s_word (sm_sep s)) as [w|]; [|discriminate].
+      destruct (infix_b w utt); [|discriminate].
+      apply bind_ok in H. destruct H as [s1 [H1 H]].
+      assert (Hne : utt <> []) by (intros ->; rewrite strip_nil in Es; discriminate).
+      destruct (read_utterance_inv s utt s1 Hne H1) as [words [phones [Hw Hp]]].
+      destruct (read_utterance_counts s utt s1 words phones Hne Hw Hp H1)
+        as [Hshape [Esep [Elv [Hl [Hwd [Hph [Hint [Hspn [Hlex [Hpi [Hpf _]]]]]]]]]]].
+      destruct (IH s1 s' H) as [wps [P [Sh C]]]. rewrite Esep, Elv in P.
+      exists ((words, phones) :: wps). split; [|split].
+      * constructor; [split; assumption|exact P].
+      * constructor; [exact Hshape|exact Sh].
+      * destruct C.
+        constructor; unfold all_words, all_phones in *; cbn [flat_map map fst snd length].
+        -- lia.
+        -- rewrite app_length. lia.
+        -- rewrite concat_app, app_length. lia.
+        -- intros d. rewrite flat_map_app, occ_app, cr_int0, Hint. lia.
+        -- intros d. rewrite occ_app, cr_spn0, Hspn. lia.
+        -- intros x. rewrite occ_app, cr_lex0, Hlex. lia.
+        -- intros x. cbn [occ]. rewrite cr_pi0, Hpi. lia.
+        -- intros x. cbn [occ]. rewrite cr_pf0, Hpf. lia.
+Qed.
+
+(* a trained CorpusSummary holds exactly the direct counts *)
+Theorem corpus_summary_counts : forall (text : list str) (sep : separator) (lv : level) (s : summary),
+  corpus_summary text sep lv = Ok s ->
+  exists wps : list (list str * list (list str)),
+    Forall2 (parsed sep lv) (kept text) wps /\
+    nlines s = Z.of_nat (length wps) /\
+    nwords s = Z.of_nat (length (all_words wps)) /\
+    nphones s = Z.of_nat (length (concat (all_phones wps))) /\
+    (forall d, cget pair_eqb (internal s) d = occ pair_eqb d (flat_map zip_adj (all_phones wps))) /\
+    (forall d, cget pair_eqb (spanning s) d = occ pair_eqb d (flat_map (fun wp => spans (snd wp)) wps)) /\
+    (forall d, cget pair_eqb (diphones s) d
+               = occ pair_eqb d (flat_map zip_adj (all_phones wps))
+                 + occ pair_eqb d (flat_map (fun wp => spans (snd wp)) wps)) /\
+    (forall w, cget str_eqb (lexicon s) w = occ str_eqb w (all_words wps)) /\
+    (forall u, cget str_eqb (phrase_initial s) u = occ str_eqb u (map (fun wp => first_of (snd wp)) wps)) /\
+    (forall u, cget str_eqb (phrase_final s) u = occ str_eqb u (map (fun wp => last_of (snd wp)) wps)).
+Proof.
+  intros text sep lv s H.
+  pose proof (diphones_is_sum text sep lv s H) as D.
+  apply corpus_summary_ok in H. destruct H as [_ [s0 [H0 E]]].
+  destruct (train_loop_counts text _ s0 H0) as [wps [P [_ C]]]. destruct C.
+  unfold summary0 in *.
+  cbn [sm_sep sm_level nlines nwords nphones lexicon phrase_initial phrase_final internal spanning cget] in *.
+  exists wps. split; [exact P|].
+  assert (Ei : internal s = internal s0) by (rewrite E; reflexivity).
+  assert (Es : spanning s = spanning s0) by (rewrite E; reflexivity).
+  repeat split.
+  - rewrite E; cbn [nlines]; lia.
+  - rewrite E; cbn [nwords]; lia.
+  - rewrite E; cbn [nphones]; lia.
+  - intros d. rewrite Ei, cr_int0. lia.
+  - intros d. rewrite Es, cr_spn0. lia.
+  - intros d. rewrite D, Ei, Es, cr_int0, cr_spn0. lia.
+  - intros w. rewrite E; cbn [lexicon]. rewrite cr_lex0. lia.
+  - intros u. rewrite E; cbn [phrase_initial]. rewrite cr_pi0. lia.
+  - intros u. rewrite E; cbn [phrase_final]. rewrite cr_pf0. lia.
+Qed.
+
+(* ================================================================== *)
+(* positive counts: the denominator pdf(diphones)[d] of a seen diphone *)
+(* of a trained summary is positive                                    *)
+(* ================================================================== *)
+
+Section Pos.
+Context {K : Type} (eqb : K -> K -> bool).
+
+Definition cpos (c : counter K) : Prop := Forall (fun kv => 0 < snd kv) c.
+
+Lemma cpos_nonneg (c : counter K) : cpos c -> cnonneg c.
+Proof. apply Forall_impl. intros kv H. lia. Qed.
+
+Lemma cadd_pos (c : counter K) (k : K) (d : Z) : 0 < d -> cpos c -> cpos (cadd eqb c k d).
+Proof.
+  intros Hd. induction c as [|[k' v] r IH]; intros H; cbn [cadd].
+  - constructor; [exact Hd|constructor].
+  - inversion H as [|? ? Hv Hr]; subst. cbn [snd] in Hv.
+    destruct (eqb k k'); constructor; cbn [snd]; try lia; try assumption. now apply IH.
+Qed.
+
+Lemma cadd_all_pos (ks : list K) (c : counter K) : cpos c -> cpos (cadd_all eqb c ks).
+Proof.
+  unfold cadd_all. revert c. induction ks as [|k ks IH]; intros c H; cbn [fold_left]; [exact H|].
+  apply IH. apply cadd_pos; [lia|exact H].
+Qed.
+
+Lemma cmem_cget_pos (c : counter K) (k : K) : cpos c -> cmem eqb c k = true -> 0 < cget eqb c k.
+Proof.
+  induction c as [|[k' v] r IH]; intros H M; cbn [cmem cget] in *; [discriminate|].
+  inversion H as [|? ? Hv Hr]; subst. cbn [snd] in Hv.
+  destruct (eqb k k'); [exact Hv|]. cbn [orb] in M. now apply IH.
+Qed.
+
+Lemma pdf_pos (c : counter K) (k : K) : cpos c -> cmem eqb c k = true -> (0 < pdf eqb c k)%Q.
+Proof.
+  intros H M. unfold pdf. rewrite M.
+  pose proof (cmem_cget_pos c k H M) as G.
+  pose proof (cget_le_total eqb c k (cpos_nonneg c H)) as T.
+  assert (Z0 : forall z : Z, 0 < z -> (0 < zq z)%Q).
+  { intros z Hz. unfold zq. change 0%Q with (inject_Z 0). now rewrite <- Zlt_Qlt. }
+  apply Qlt_shift_div_l; [apply Z0; lia|]. rewrite Qmult_0_l. now apply Z0.
+Qed.
+
+End Pos.
+
+Lemma merge_pos (b a : counter (str * str)) : cpos a -> cpos b -> cpos (merge a b).
+Proof.
+  unfold merge. revert a. induction b as [|[k v] b IH]; intros a Ha Hb; cbn [fold_left]; [exact Ha|].
+  inversion Hb as [|? ? Hv Hb']; subst. cbn [snd fst] in *.
+  apply IH; [|exact Hb']. now apply cadd_pos.
+Qed.
+
+Lemma pos_inv_train (text : list str) (s s' : summary) :
+  cpos (internal s) /\ cpos (spanning s) -> train_loop s text = Ok s' ->
+  cpos (internal s') /\ cpos (spanning s').
+Proof.
+  apply (train_loop_inv (fun x => cpos (internal x) /\ cpos (spanning x))).
+  intros s1 utt s2 [Pi Ps] R. destruct utt as [|c0 u0] eqn:Eu.
+  - injection R as <-. now split.
+  - rewrite <- Eu in R. assert (Hne : utt <> []) by (rewrite Eu; discriminate).
+    destruct (read_utterance_inv s1 utt s2 Hne R) as [words [phones [Hw Hp]]].
+    destruct (read_utterance_ok s1 utt s2 words phones Hne Hw Hp R) as [_ [_ ->]].
+    cbn [internal spanning]. split; now apply cadd_all_pos.
+Qed.
+
+Theorem trained_den_pos : forall (text : list str) (sep : separator) (lv : level) (s : summary) (d : str * str),
+  corpus_summary text sep lv = Ok s -> cmem pair_eqb (diphones s) d = true ->
+  (0 < pdf pair_eqb (diphones s) d)%Q.
+Proof.
+  intros text sep lv s d H M.
+  apply corpus_summary_ok in H. destruct H as [_ [s0 [H0 E]]].
+  assert (P0 : cpos (internal (summary0 sep lv)) /\ cpos (spanning (summary0 sep lv)))
+    by (split; constructor).
+  destruct (pos_inv_train text _ s0 P0 H0) as [Pi Ps].
+  apply pdf_pos; [|exact M]. rewrite E. cbn [diphones]. now apply merge_pos.
+Qed.
+
+(* the Phrasal / Lexical formulas on a trained summary, without side condition *)
+Corollary phrasal_prob_trained : forall (text : list str) (sep : separator) (lv : level) (s : summary)
+    (pwb : option Q) (t : list ((str * str) * Q)) (d : str * str) (p : Q),
+  corpus_summary text sep lv = Ok s ->
+  init_diphones Phrasal s pwb = Ok t -> pwb_value s pwb = Ok p ->
+  cmem pair_eqb (diphones s) d = true ->
+  (dget t d == Qmin 1 ((pdf str_eqb (phrase_final s) (fst d) * p * pdf str_eqb (phrase_initial s) (snd d))
+                       / pdf pair_eqb (diphones s) d))%Q.
+Proof.
+  intros text sep lv s pwb t d p Hc Ht Hp M.
+  apply (phrasal_prob_spec s pwb t d p Ht Hp M). exact (trained_den_pos text sep lv s d Hc M).
+Qed.
+
+Corollary lexical_prob_trained : forall (text : list str) (sep : separator) (lv : level) (s : summary)
+    (pwb : option Q) (t : list ((str * str) * Q)) (d : str * str) (p : Q) (wi wf : list str),
+  corpus_summary text sep lv = Ok s ->
+  init_diphones Lexical s pwb = Ok t -> pwb_value s pwb = Ok p ->
+  mapM (fun kv => first_unit s (fst kv)) (lexicon s) = Ok wi ->
+  mapM (fun kv => last_unit s (fst kv)) (lexicon s) = Ok wf ->
+  cmem pair_eqb (diphones s) d = true ->
+  (dget t d == Qmin 1 ((pdf str_eqb (cadd_all str_eqb [] wf) (fst d) * p
+                        * pdf str_eqb (cadd_all str_eqb [] wi) (snd d))
+                       / pdf pair_eqb (diphones s) d))%Q.
+Proof.
+  intros text sep lv s pwb t d p wi wf Hc Ht Hp Hwi Hwf M.
+  apply (lexical_prob_spec s pwb t d p wi wf Ht Hp Hwi Hwf M).
+  exact (trained_den_pos text sep lv s d Hc M).
 Qed.
